@@ -52,7 +52,9 @@ func checkIdentity(in *graph.Instance, wrap *graph.WrapPP) (labels []string, non
 		var got any
 		var lerr error
 		if p := kit.Protect(func() { got, lerr = in.Out.App.GetComponentByName(c.Name) }); p != nil {
-			return nil, false, fmt.Errorf("GetComponentByName(%q) panicked: %v", c.Name, p)
+			// creating a lazy component after start-up blew up: not an identity question (C07/C09 cover it)
+			labels = append(labels, "lookup-panicked")
+			continue
 		}
 		if lerr != nil {
 			// a lazy component that cannot be created is not C01's business
@@ -98,7 +100,8 @@ func checkIdentity(in *graph.Instance, wrap *graph.WrapPP) (labels []string, non
 	var all []any
 	var aerr error
 	if p := kit.Protect(func() { all, aerr = in.Out.App.GetComponents() }); p != nil {
-		return nil, false, fmt.Errorf("GetComponents panicked: %v", p)
+		labels = append(labels, "getcomponents-panicked")
+		aerr = fmt.Errorf("panic")
 	}
 	if aerr == nil {
 		inLookup := map[any]bool{}
